@@ -194,7 +194,7 @@ func (x Int8) Value() interface{} {
 }
 
 func (x Int8) Compare(y Comparable) int {
-	return int(int8(x) - y.Value().(int8))
+	return int(x) - int(y.Value().(int8))
 }
 
 func (x Int8) Int64() int64 {
@@ -242,10 +242,10 @@ func (x UInt8) Value() interface{} {
 }
 
 func (x UInt8) Compare(b Comparable) int {
-	c := uint8(x) - b.Value().(uint8)
-	if c < 0 {
+	xv, yv := uint8(x), b.Value().(uint8)
+	if xv < yv {
 		return -1
-	} else if c > 0 {
+	} else if xv > yv {
 		return 1
 	}
 	return 0
@@ -296,7 +296,7 @@ func (x Int16) Value() interface{} {
 }
 
 func (x Int16) Compare(y Comparable) int {
-	return int(int16(x) - y.Value().(int16))
+	return int(x) - int(y.Value().(int16))
 }
 
 func (x Int16) Int64() int64 {
@@ -344,10 +344,10 @@ func (x UInt16) Value() interface{} {
 }
 
 func (x UInt16) Compare(b Comparable) int {
-	c := uint16(x) - b.Value().(uint16)
-	if c < 0 {
+	xv, yv := uint16(x), b.Value().(uint16)
+	if xv < yv {
 		return -1
-	} else if c > 0 {
+	} else if xv > yv {
 		return 1
 	}
 	return 0
@@ -446,10 +446,10 @@ func (x UInt32) Value() interface{} {
 }
 
 func (x UInt32) Compare(b Comparable) int {
-	c := uint(x) - b.Value().(uint)
-	if c < 0 {
+	xv, yv := uint(x), b.Value().(uint)
+	if xv < yv {
 		return -1
-	} else if c > 0 {
+	} else if xv > yv {
 		return 1
 	}
 	return 0
@@ -500,10 +500,10 @@ func (x Int64) Value() interface{} {
 }
 
 func (x Int64) Compare(b Comparable) int {
-	c := int64(x) - b.Value().(int64)
-	if c < 0 {
+	xv, yv := int64(x), b.Value().(int64)
+	if xv < yv {
 		return -1
-	} else if c > 0 {
+	} else if xv > yv {
 		return 1
 	}
 	return 0
@@ -554,10 +554,10 @@ func (x UInt64) Value() interface{} {
 }
 
 func (x UInt64) Compare(b Comparable) int {
-	c := uint64(x) - b.Value().(uint64)
-	if c < 0 {
+	xv, yv := uint64(x), b.Value().(uint64)
+	if xv < yv {
 		return -1
-	} else if c > 0 {
+	} else if xv > yv {
 		return 1
 	}
 	return 0
